@@ -17,6 +17,7 @@
 package keystore
 
 import (
+	"bytes"
 	"crypto"
 	"crypto/ecdsa"
 	"crypto/rsa"
@@ -98,7 +99,12 @@ func NewKeyStoreFromPEMFile(pemFilePath, password string) (KeyStore, error) {
 }
 
 func NewKeyStoreFromPEMBytes(pemBytes []byte, password string) (KeyStore, error) {
-	return createKeyStore(readPEMContents(pemBytes), password)
+	blocks, err := readPEMContents(pemBytes)
+	if err != nil {
+		return nil, err
+	}
+
+	return createKeyStore(blocks, password)
 }
 
 func createKeyStore(blocks []*pem.Block, password string) (keyStore, error) {
@@ -216,7 +222,7 @@ func generateKeyID(chain []*x509.Certificate, entry *Entry) (string, error) {
 	return hex.EncodeToString(keyID), nil
 }
 
-func readPEMContents(data []byte) []*pem.Block {
+func readPEMContents(data []byte) ([]*pem.Block, error) {
 	var (
 		blocks []*pem.Block
 		block  *pem.Block
@@ -224,7 +230,7 @@ func readPEMContents(data []byte) []*pem.Block {
 
 	next := data
 	if len(next) == 0 {
-		return blocks
+		return blocks, nil
 	}
 
 	for {
@@ -236,7 +242,14 @@ func readPEMContents(data []byte) []*pem.Block {
 		blocks = append(blocks, block)
 	}
 
-	return blocks
+	// what is left does not contain a (complete) pem block. Anything but white space
+	// there means the file is damaged or has been read while it was being written
+	if len(bytes.TrimSpace(next)) != 0 {
+		return nil, errorchain.NewWithMessagef(heimdall.ErrConfiguration,
+			"malformed or incomplete data after pem entry %d", len(blocks))
+	}
+
+	return blocks, nil
 }
 
 func createEntry(key any, keyID string) (*Entry, error) {
